@@ -80,8 +80,13 @@ func (r *Report) Check(cond bool, rule, construct, pos, okDetail, badDetail stri
 	return cond
 }
 
-// Floor demands at least n obligations (any status) for rule; fewer => undecided.
-func (r *Report) Floor(rule string, n int) { r.floors[rule] = n }
+// Floor demands at least half of n obligations (any status) for rule; fewer => undecided.
+func (r *Report) Floor(rule string, n int) {
+	// n is the instance count confirmed by hand on the pinned tree. Removing or merging some
+	// instances (a duplicated closure hoisted, a redundant assertion dropped) is not a
+	// violation; losing more than half of them means the rule no longer sees its constructs.
+	r.floors[rule] = (n + 1) / 2
+}
 
 func (r *Report) Count(k string, n int) { r.Counters[k] += n }
 
@@ -189,7 +194,7 @@ func (r *Report) Finish() int {
 	for _, rule := range rules {
 		if perRule[rule] < r.floors[rule] {
 			und = append(und, Obligation{Rule: rule, Construct: "floor", Status: Undecided,
-				Detail: fmt.Sprintf("rule matched %d instances, below the floor of %d confirmed by hand", perRule[rule], r.floors[rule])})
+				Detail: fmt.Sprintf("rule matched %d instances, fewer than half of the count confirmed by hand (floor %d)", perRule[rule], r.floors[rule])})
 		}
 	}
 	evDir := filepath.Join(r.Root, "evidence")
@@ -204,7 +209,7 @@ func (r *Report) Finish() int {
 		os.MkdirAll(vdir, 0o755)
 		path := filepath.Join(vdir, strconv.Itoa(i)+".json")
 		b, _ := json.MarshalIndent(map[string]any{"property": r.Prop, "rule": o.Rule, "construct": o.Construct,
-			"pos": o.Pos, "detail": o.Detail, "replay": fmt.Sprintf("bin/check %s %s --only %s", r.Prop, r.Tier, o.Key())}, "", " ")
+			"pos": o.Pos, "detail": o.Detail, "key": o.Key(), "replay": fmt.Sprintf("bin/check %s %s", r.Prop, r.Tier)}, "", " ")
 		os.WriteFile(path, b, 0o644)
 		fmt.Printf("  violation %s at %s: %s\n", o.Key(), o.Pos, o.Detail)
 		fmt.Printf("VIOLATION property=%s replay=%s\n", r.Prop, path)
